@@ -24,6 +24,7 @@ import signal
 import tempfile
 import threading
 import traceback
+import warnings
 
 import numpy as np
 from hypothesis import strategies as st
@@ -31,6 +32,8 @@ from hypothesis import strategies as st
 from vlib.core import VERIF, HarnessError
 
 logging.getLogger("gemseo").setLevel(logging.ERROR)
+# complex-step runs hand complex bounds / values to SciPy and h5py, which take the real part
+warnings.filterwarnings("ignore", category=getattr(np, "ComplexWarning", None) or np.exceptions.ComplexWarning)
 
 PROPERTY = "C12"
 LEVEL = "fault_enumeration"
@@ -69,6 +72,8 @@ ASSUMPTIONS = [
 ]
 
 CRASH_CODE = 17
+# ledger predicate (C12-F1): an MDO restart never evaluates the observables at a loaded entry that lacks them
+KNOWN_OBSERVABLE = "restart_skips_observable_of_loaded_incomplete_entry"
 CHILD_TIMEOUT_S = 120
 MDO_ALGOS = ["SLSQP", "L-BFGS-B", "NLOPT_COBYLA"]
 DOE_ALGOS = ["LHS", "PYDOE_FULLFACT", "CustomDOE"]
@@ -88,18 +93,21 @@ def n_workers(ctx) -> int:
 def configs(draw, algo: str):
     kind = "mdo" if algo in MDO_ALGOS else "doe"
     n_x = draw(st.integers(1, 2))
-    budget = draw(st.integers(5, 15))
+    # MDO budgets lean to the small side so that max_iter (not convergence) ends a good share of the runs
+    budget = draw(st.sampled_from([5, 5, 6, 6, 7, 8, 9, 11, 13, 15])) if kind == "mdo" else draw(st.integers(5, 15))
     p = {
         "kind": kind,
         "algo": algo,
         "n_x": n_x,
-        "n_disc": draw(st.integers(1, 2)),
+        "structure": draw(st.sampled_from(["single", "chain", "idf", "idf"])),
+        "observable": draw(st.sampled_from([False, True, True])),
         "bounds": draw(st.integers(0, len(BOUNDS) - 1)),
         "x0": draw(st.lists(st.integers(0, GRID), min_size=n_x, max_size=n_x)),
         "a": draw(st.lists(st.integers(-2, 4), min_size=n_x, max_size=n_x)),
         "w": draw(st.lists(st.integers(1, 3), min_size=n_x, max_size=n_x)),
         "c": draw(st.integers(-1, 1)),
         "u": draw(st.integers(0, 1)),
+        "rho": draw(st.integers(0, 2)),
         "s": draw(st.lists(st.sampled_from([-2, -1, 1, 2]), min_size=n_x, max_size=n_x)),
         "t": draw(st.integers(0, 1)),
         "r": draw(st.integers(-2, 4)),
@@ -108,14 +116,26 @@ def configs(draw, algo: str):
         "prefix_at": draw(st.integers(0, 30)),
         "normalize": draw(st.booleans()) if kind == "mdo" else False,
         "budget": budget,
-        "reset": draw(st.sampled_from([False, False, True])),
+        "reset": draw(st.sampled_from([False, False, False, True])),
         "maximize": draw(st.sampled_from([False, False, False, True])),
+        "diff": "user",
     }
+    if kind == "mdo":
+        p["tols_off"] = draw(st.booleans())
     if kind == "doe":
         p["eval_jac"] = draw(st.booleans())
         p["seed"] = draw(st.integers(1, 5))
         if algo == "CustomDOE":
             p["samples"] = draw(st.lists(st.lists(st.integers(0, GRID), min_size=n_x, max_size=n_x), min_size=budget, max_size=budget))
+    if algo in ("SLSQP", "L-BFGS-B") or p.get("eval_jac"):
+        p["diff"] = draw(st.sampled_from(["user", "finite_differences", "complex_step", "complex_step"]))
+        if p["diff"] != "user":
+            # every perturbed execution is a crash point too: keep these runs small (one variable, smallest budget)
+            p.update(n_x=1, budget=5, x0=p["x0"][:1], a=p["a"][:1], w=p["w"][:1], s=p["s"][:1])
+            if p["structure"] == "chain":
+                p["structure"] = "single"  # a perturbation of a chain runs every link: up to 90 crash points
+            if algo == "CustomDOE":
+                p["samples"] = [idx[:1] for idx in p["samples"][:5]]
     return p
 
 
@@ -129,8 +149,17 @@ def has_constraint(p) -> bool:
     return p["algo"] != "L-BFGS-B"
 
 
+def structure_of(p) -> str:
+    if "structure" in p:
+        return p["structure"]
+    return "single" if p.get("n_disc", 1) == 1 else "chain"  # payloads of the first version of this check
+
+
 def make_disciplines(p, hook):
-    """The harness disciplines; ``hook(name, x)`` is called at the start of every execution."""
+    """The harness disciplines; ``hook(name, x)`` is called at the start of every execution.
+
+    Every function is a polynomial (plus a sine) evaluated with the dtype of x: complex-step safe.
+    """
     from gemseo.core.discipline import Discipline
 
     n = p["n_x"]
@@ -138,77 +167,86 @@ def make_disciplines(p, hook):
     w = np.array(p["w"], dtype=float)
     s = np.array(p["s"], dtype=float)
     c, u, t, r = 0.5 * p["c"], 0.1 * p["u"], 0.5 * p["t"], 0.5 * p["r"]
+    rho = 0.5 * p.get("rho", 0)
 
     def f_val(x):
         d = x - a
-        v = float(np.sum(w * d**2) + u * np.sum(d**4))
+        v = np.sum(w * d**2) + u * np.sum(d**4)
         if n == 2:
-            v += c * x[0] * x[1]
+            v = v + c * x[0] * x[1] + rho * (x[1] - x[0] ** 2) ** 2
+        else:
+            v = v + rho * np.sin(3.0 * x[0])
         return v
 
     def f_jac(x):
         d = x - a
         j = 2 * w * d + 4 * u * d**3
         if n == 2:
-            j = j + c * np.array([x[1], x[0]])
+            q = x[1] - x[0] ** 2
+            j = j + c * np.array([x[1], x[0]]) + rho * np.array([-4.0 * x[0] * q, 2.0 * q])
+        else:
+            j = j + rho * 3.0 * np.cos(3.0 * x)
         return j.reshape(1, n)
 
     def y_val(x):
-        return float(s @ x + t * x[0] ** 2)
+        return s @ x + t * x[0] ** 2
 
     def y_jac(x):
         j = s.copy()
         j[0] += 2 * t * x[0]
         return j.reshape(1, n)
 
-    class Single(Discipline):
-        def __init__(self):
-            super().__init__("D1")
-            self.io.input_grammar.update_from_data({"x": np.zeros(n)})
-            self.io.output_grammar.update_from_data({"f": np.zeros(1), "g": np.zeros(1)})
-            self.io.input_grammar.defaults = {"x": np.zeros(n)}
+    def o_val(x):
+        return np.array([np.sum(x), x[0] * x[-1]])
+
+    def o_jac(x):
+        j = np.zeros((2, n))
+        j[0, :] = 1.0
+        j[1, 0] += x[-1]
+        j[1, -1] += x[0]
+        return j
+
+    class Harness(Discipline):
+        """inputs x (and y for the second link of the chain); ``outputs``: {name: (value function, Jacobian function)}."""
+
+        def __init__(self, name, outputs, with_y=False):
+            super().__init__(name)
+            self.outputs = outputs
+            self.with_y = with_y
+            self.io.input_grammar.update_from_names(["x", "y"] if with_y else ["x"])
+            self.io.output_grammar.update_from_names(list(outputs))
+            self.io.input_grammar.defaults = {"x": np.zeros(n), "y": np.zeros(1)} if with_y else {"x": np.zeros(n)}
 
         def _run(self, input_data):
-            x = np.array(input_data["x"], dtype=float)
-            hook("D1", x)
-            return {"f": np.array([f_val(x)]), "g": np.array([y_val(x) - r])}
+            x = np.array(input_data["x"])
+            hook(self.name, x)
+            if self.with_y:
+                return {"g": np.array([input_data["y"][0] - r])}
+            return {name: np.atleast_1d(np.array(fn(x))) for name, (fn, _) in self.outputs.items()}
 
         def _compute_jacobian(self, input_names=(), output_names=()):
-            x = np.array(self.io.data["x"], dtype=float)
-            self.jac = {"f": {"x": f_jac(x)}, "g": {"x": y_jac(x)}}
+            if self.with_y:
+                self.jac = {"g": {"x": np.zeros((1, n)), "y": np.ones((1, 1))}}
+                return
+            x = np.array(self.io.data["x"]).real
+            self.jac = {name: {"x": jac(x)} for name, (_, jac) in self.outputs.items()}
 
-    class First(Discipline):
-        def __init__(self):
-            super().__init__("D1")
-            self.io.input_grammar.update_from_data({"x": np.zeros(n)})
-            self.io.output_grammar.update_from_data({"f": np.zeros(1), "y": np.zeros(1)})
-            self.io.input_grammar.defaults = {"x": np.zeros(n)}
-
-        def _run(self, input_data):
-            x = np.array(input_data["x"], dtype=float)
-            hook("D1", x)
-            return {"f": np.array([f_val(x)]), "y": np.array([y_val(x)])}
-
-        def _compute_jacobian(self, input_names=(), output_names=()):
-            x = np.array(self.io.data["x"], dtype=float)
-            self.jac = {"f": {"x": f_jac(x)}, "y": {"x": y_jac(x)}}
-
-    class Second(Discipline):
-        def __init__(self):
-            super().__init__("D2")
-            self.io.input_grammar.update_from_data({"x": np.zeros(n), "y": np.zeros(1)})
-            self.io.output_grammar.update_from_data({"g": np.zeros(1)})
-            self.io.input_grammar.defaults = {"x": np.zeros(n), "y": np.zeros(1)}
-
-        def _run(self, input_data):
-            x = np.array(input_data["x"], dtype=float)
-            hook("D2", x)
-            return {"g": np.array([float(input_data["y"][0]) - r])}
-
-        def _compute_jacobian(self, input_names=(), output_names=()):
-            self.jac = {"g": {"x": np.zeros((1, n)), "y": np.ones((1, 1))}}
-
-    return [Single()] if p["n_disc"] == 1 else [First(), Second()]
+    F = (f_val, f_jac)
+    Y = (y_val, y_jac)
+    G = (lambda x: y_val(x) - r, y_jac)
+    O = (o_val, o_jac)
+    structure = structure_of(p)
+    if structure == "single":
+        disciplines = [Harness("D1", {"f": F, "g": G})]
+    elif structure == "chain":
+        disciplines = [Harness("D1", {"f": F, "y": Y}), Harness("D2", {"g": G}, with_y=True)]
+    else:  # independent disciplines under IDF: one execution per function
+        disciplines = [Harness("Obj", {"f": F})]
+        if has_constraint(p):
+            disciplines.append(Harness("Cstr", {"g": G}))
+    if p.get("observable"):
+        disciplines.append(Harness("Obs", {"o": O}))
+    return disciplines
 
 
 def build_scenario(p, hook):
@@ -219,17 +257,24 @@ def build_scenario(p, hook):
     ds = DesignSpace()
     ds.add_variable("x", p["n_x"], lower_bound=lb, upper_bound=ub, value=_grid_point(p, p["x0"]))
     scenario = create_scenario(
-        make_disciplines(p, hook), "f", ds, formulation_name="DisciplinaryOpt",
+        make_disciplines(p, hook), "f", ds, formulation_name="IDF" if structure_of(p) == "idf" else "DisciplinaryOpt",
         scenario_type="MDO" if p["kind"] == "mdo" else "DOE", maximize_objective=bool(p.get("maximize", False)),
     )
     if has_constraint(p):
         scenario.add_constraint("g", constraint_type="ineq")
+    if p.get("observable"):
+        scenario.add_observable("o")
+    if p.get("diff", "user") != "user":
+        scenario.set_differentiation_method(p["diff"])
     return scenario
 
 
 def algo_settings(p, reset: bool | None):
     if p["kind"] == "mdo":
         kw = {"algo_name": p["algo"], "max_iter": p["budget"], "normalize_design_space": p["normalize"]}
+        if p.get("tols_off"):
+            # only max_iter (or the algorithm's own convergence test) ends the run
+            kw.update(xtol_rel=0.0, xtol_abs=0.0, ftol_rel=0.0, ftol_abs=0.0)
     else:
         kw = {"algo_name": p["algo"], "eval_jac": p["eval_jac"]}
         if p["algo"] == "CustomDOE":
@@ -289,10 +334,20 @@ def child_run(p, path, mode: str, crash_at: int | None, record_stores: bool):
         def store(self, x_vect, outputs):
             if self is not database:
                 return original_store(self, x_vect, outputs)
+            # The state this call produces is logged BEFORE the listeners run (they may execute disciplines,
+            # e.g. to evaluate an observable): entry appended or completed, by the documented rule.
             before = self.get(x_vect)
             is_new_iteration = bool(outputs) and not before
+            key = np.array(getattr(x_vect, "wrapped_array", x_vect), copy=True)
+            model = snapshot(self)
+            for x_m, values_m in model:
+                if same_key(x_m, key):
+                    values_m.update({str(n): np.array(v, copy=True) for n, v in outputs.items()})
+                    break
+            else:
+                model.append((key, {str(n): np.array(v, copy=True) for n, v in outputs.items()}))
+            events.append(("store", is_new_iteration, model))
             original_store(self, x_vect, outputs)
-            events.append(("store", is_new_iteration, snapshot(self)))
             return None
 
         Database.store = store  # this process only (forked child)
@@ -308,7 +363,7 @@ def child_run(p, path, mode: str, crash_at: int | None, record_stores: bool):
         "objective_name": str(problem.objective.name),  # "f", or "-f" when maximising (the stored, minimised quantity)
         "result": {
             "x_opt": None if result.x_opt is None else np.array(result.x_opt, copy=True),
-            "f_opt": None if result.f_opt is None else float(np.atleast_1d(result.f_opt)[0]),
+            "f_opt": None if result.f_opt is None else float(np.real(np.atleast_1d(result.f_opt)[0])),
             "is_feasible": bool(result.is_feasible),
             "constraints": {str(k): np.array(v, copy=True) for k, v in (result.constraint_values or {}).items()},
         },
@@ -405,6 +460,14 @@ def same_key(a, b) -> bool:
     return a.dtype == b.dtype and a.shape == b.shape and a.tobytes() == b.tobytes()
 
 
+def phys_key(x):
+    """Bytes of the physical point (None for a complex-step perturbed point): float64 and complex128 copies agree."""
+    x = np.asarray(x)
+    if np.iscomplexobj(x) and bool(np.any(x.imag != 0)):
+        return None
+    return np.ascontiguousarray(x.real, dtype=float).tobytes()
+
+
 def same_value(a, b) -> bool:
     a, b = np.asarray(a), np.asarray(b)
     return a.shape == b.shape and bool(np.array_equal(a, b))
@@ -450,7 +513,7 @@ def expected_backup(events, initial_file, policy: str, k: int):
 
 
 def violation_measure(g, tol) -> float:
-    return float(np.sum(np.maximum(np.atleast_1d(np.asarray(g, dtype=float)) - tol, 0.0) ** 2))
+    return float(np.sum(np.maximum(np.atleast_1d(np.real(np.asarray(g))).astype(float) - tol, 0.0) ** 2))
 
 
 # --------------------------------------------------------------------------- the case
@@ -467,20 +530,23 @@ def warm_up():
 
     tqdm.tqdm.monitor_interval = 0  # never start a monitor thread in a process that forks
 
-    base = {"n_x": 1, "n_disc": 2, "bounds": 0, "x0": [3], "a": [1], "w": [1], "c": 0, "u": 0, "s": [1], "t": 0, "r": 1,
+    base = {"n_x": 1, "structure": "chain", "observable": False, "diff": "user", "bounds": 0, "x0": [3], "a": [1], "w": [1], "c": 0, "u": 0, "s": [1], "t": 0, "r": 1,
             "policy": "call", "initial": "absent", "prefix_at": 0, "normalize": False, "budget": 2, "reset": False,
             "maximize": False, "eval_jac": False, "seed": 1, "samples": [[1], [2]]}
+    variants = [{}, {"structure": "idf", "observable": True, "diff": "complex_step", "eval_jac": True},
+                {"structure": "single", "observable": True, "diff": "finite_differences", "eval_jac": True}]
     for kind, algos in (("mdo", MDO_ALGOS), ("doe", DOE_ALGOS)):
         for algo in algos:
-            p = dict(base, kind=kind, algo=algo)
-            scenario = build_scenario(p, lambda name, x: None)
-            scenario.execute(**algo_settings(p, None))
+            for variant in variants:
+                p = dict(base, kind=kind, algo=algo, **variant)
+                scenario = build_scenario(p, lambda name, x: None)
+                scenario.execute(**algo_settings(p, None))
     _WARM["done"] = True
 
 
 def descriptor(p) -> str:
     return "/".join([
-        p["kind"], p["algo"], f"disc{p['n_disc']}", f"x{p['n_x']}", p["policy"], p["initial"],
+        p["kind"], p["algo"], structure_of(p) + ("+obs" if p.get("observable") else ""), p.get("diff", "user"), f"x{p['n_x']}", p["policy"], p["initial"],
         "norm" if p["normalize"] else "phys", f"b{p['budget']}", "reset" if p["reset"] else "keep",
         "max" if p.get("maximize") else "min",
     ])
@@ -543,15 +609,17 @@ def _case(p, ctx, work, workers):
         run_mode = "erase" if (initial_mode == "prefix_erase" and prefix_snapshot is not None) else "fresh"
     n_full = len(ref["final"])
     n_crash = ref["n_exec"]
-    ctx.cls(f"kind_{p['kind']}", f"algo_{p['algo']}", f"policy_{policy}", f"initial_{initial_mode}", f"disciplines_{p['n_disc']}",
+    ctx.cls(f"kind_{p['kind']}", f"algo_{p['algo']}", f"policy_{policy}", f"initial_{initial_mode}", f"structure_{structure_of(p)}", f"differentiation_{p.get('diff', 'user')}",
+            "with_observable" if p.get("observable") else "without_observable",
             "normalized" if p["normalize"] else "not_normalized", "restart_reset_counters" if p["reset"] else "restart_keeps_counters",
             "maximize" if p.get("maximize") else "minimize")
     if n_crash == 0:
         ctx.cls("loaded_prefix_leaves_nothing_to_execute")
         ctx.evaluations -= 1  # no crash point in this configuration
         return
-    if p["kind"] == "mdo" and n_full < p["budget"]:
-        ctx.cls("mdo_converged_before_budget")
+    budget_bound = p["kind"] == "mdo" and n_full >= p["budget"]
+    if p["kind"] == "mdo":
+        ctx.cls("mdo_stopped_by_max_iter" if budget_bound else "mdo_converged_before_budget")
     if any(ev[0] == "store" and any(n.startswith("@") for _, vals in ev[2] for n in vals) for ev in ref["events"]):
         ctx.cls("config_with_gradients_in_database")
 
@@ -608,7 +676,10 @@ def _case(p, ctx, work, workers):
         rs = child_document(ctx, code, doc, f"restart after the crash at execution {k} [{desc}]", k=k)
         backup = backups[k]
         final = rs["final"]
-        index = {x.tobytes(): i for i, (x, _) in enumerate(final)}
+        exact = {(str(x.dtype), x.tobytes()): i for i, (x, _) in enumerate(final)}
+        by_point = {}
+        for i, (x, _) in enumerate(final):
+            by_point.setdefault(phys_key(x), i)
 
         # loaded entries are kept, first and in order
         msg = diff_snapshots(rs["initial"], backup)
@@ -617,15 +688,16 @@ def _case(p, ctx, work, workers):
         ctx.check(msg is None, "loaded_kept", f"restart after crash {k}: loaded entries changed at the end of the run: {msg}", k=k)
 
         # no rework
-        in_backup = {x.tobytes(): vals for x, vals in backup}
+        in_backup = {phys_key(x): (x, vals) for x, vals in backup}
         n_replayed = 0
         for ev in rs["events"]:
             _, _, name, x = ev
-            vals = in_backup.get(x.tobytes())
-            if vals is None:
+            hit = in_backup.get(phys_key(x)) if phys_key(x) is not None else None
+            if hit is None:
                 continue
+            x_b, vals = hit
             n_replayed += 1
-            i = index.get(x.tobytes())
+            i = exact.get((str(x_b.dtype), x_b.tobytes()))
             new_names = set(final[i][1]) - set(vals) if i is not None else set()
             ctx.check(bool(new_names), "no_rework",
                       f"restart after crash {k}: discipline {name} executed at {x.tolist()} although the backup holds {sorted(vals)} there and nothing new was stored",
@@ -640,37 +712,54 @@ def _case(p, ctx, work, workers):
         res = rs["result"]
         obj = rs["objective_name"]
         complete = [vals for _, vals in backup if obj in vals and ("g" in vals or not has_constraint(p))]
-        feasible = [float(np.atleast_1d(vals[obj])[0]) for vals in complete if not has_constraint(p) or bool(np.all(np.asarray(vals["g"]) <= tol))]
+        feasible = [float(np.real(np.atleast_1d(vals[obj])[0])) for vals in complete if not has_constraint(p) or bool(np.all(np.asarray(vals["g"]) <= tol))]
         if feasible:
             best = min(feasible)
             ctx.check(res["is_feasible"], "optimum", f"restart after crash {k}: reported optimum infeasible, the backup holds a feasible point", k=k)
             # the stored (standardised: minimised) objective at the reported point; no sign convention of f_opt involved
-            i_opt = index.get(np.asarray(res["x_opt"], dtype=float).tobytes()) if res["x_opt"] is not None else None
+            i_opt = by_point.get(phys_key(res["x_opt"])) if res["x_opt"] is not None else None
             ctx.check(i_opt is not None and obj in final[i_opt][1], "optimum",
                       f"restart after crash {k}: reported optimum {res['x_opt']} has no recorded objective", k=k)
-            reported = float(np.atleast_1d(final[i_opt][1][obj])[0])
+            reported = float(np.real(np.atleast_1d(final[i_opt][1][obj])[0]))
             ctx.check(reported <= best, "optimum",
                       f"restart after crash {k}: reported point has {obj} = {reported}, the backup holds a feasible point with {best}", k=k)
             ctx.cls("restart_with_feasible_loaded_point")
         elif complete and not res["is_feasible"]:
             g_rep = res["constraints"].get("g")
-            ctx.check(g_rep is not None, "optimum", f"restart after crash {k}: infeasible optimum reported without constraint value", k=k)
-            least = min(violation_measure(vals["g"], tol) for vals in complete)
-            # relative margin 1e-9: the code sums squares in its own order
-            ctx.check(violation_measure(g_rep, tol) <= least * (1 + 1e-9), "optimum",
-                      f"restart after crash {k}: reported violation {violation_measure(g_rep, tol)}, a loaded point has {least}", k=k)
-            ctx.cls("restart_with_only_infeasible_loaded_points")
+            if g_rep is None or np.asarray(g_rep).dtype == object:
+                # The reported point is a partially recorded one (e.g. the loaded incomplete entry that a normalised
+                # restart missed by an ulp): no violation measure is defined for it (C04's assumption, P16).
+                ctx.cls("restart_reports_partially_recorded_point")
+            else:
+                least = min(violation_measure(vals["g"], tol) for vals in complete)
+                # relative margin 1e-9: the code sums squares in its own order
+                ctx.check(violation_measure(g_rep, tol) <= least * (1 + 1e-9), "optimum",
+                          f"restart after crash {k}: reported violation {violation_measure(g_rep, tol)}, a loaded point has {least}", k=k)
+                ctx.cls("restart_with_only_infeasible_loaded_points")
+
+        # the restored counter: a run completed with reset_iteration_counters=False stays within max_iter
+        if p["kind"] == "mdo" and not p["reset"]:
+            ctx.check(len(final) <= p["budget"], "counter_restored",
+                      f"restart after crash {k} (reset_iteration_counters=False, {len(backup)} loaded entries): {len(final)} entries, max_iter={p['budget']}", k=k)
+            if budget_bound:
+                ctx.cls("restart_keeping_counters_of_a_run_stopped_by_max_iter")
 
         # same history as the uninterrupted run
         if not p["normalize"]:
+            expected_final = ref["final"]
+            missing_obs = [i for i, (_, vals) in enumerate(backup) if "o" not in vals and i < len(final) and "o" not in final[i][1]]
+            if p["kind"] == "mdo" and p.get("observable") and missing_obs and ctx.known(KNOWN_OBSERVABLE):
+                # exactly that class: the observable is not required at loaded entries that came without it
+                expected_final = [(x, {n: v for n, v in vals.items() if not (n == "o" and i in missing_obs)})
+                                  for i, (x, vals) in enumerate(ref["final"])]
             if not p["reset"]:
-                msg = diff_snapshots(final, ref["final"])
+                msg = diff_snapshots(final, expected_final)
                 ctx.check(msg is None, "same_history", f"restart after crash {k} (reset_iteration_counters=False): final history differs from the uninterrupted run: {msg}", k=k)
                 ctx.check(same_value(res["x_opt"], ref["result"]["x_opt"]) and res["f_opt"] == ref["result"]["f_opt"], "same_history",
                           f"restart after crash {k}: optimum {res['x_opt']}, {res['f_opt']} differs from the uninterrupted run's {ref['result']['x_opt']}, {ref['result']['f_opt']}", k=k)
                 ctx.cls("history_equality_checked")
             else:
-                msg = diff_snapshots(final, ref["final"], prefix_only=True, subset_names=True)
+                msg = diff_snapshots(final, expected_final, prefix_only=True, subset_names=True)
                 ctx.check(msg is None, "history_prefix", f"restart after crash {k} (reset_iteration_counters=True): the uninterrupted history is not a prefix of the restarted one: {msg}", k=k)
                 ctx.cls("history_prefix_checked")
                 if len(final) > n_full:
@@ -681,7 +770,7 @@ def _case(p, ctx, work, workers):
 
 # one oracle (one Hypothesis stream, one bucket of failures) per algorithm: every run covers all six
 ORACLES = {f"crash_{algo}": case_crash for algo in [*MDO_ALGOS, *DOE_ALGOS]}
-QUICK = {"SLSQP": 6, "L-BFGS-B": 4, "NLOPT_COBYLA": 5, "LHS": 4, "PYDOE_FULLFACT": 4, "CustomDOE": 4}
+QUICK = {"SLSQP": 5, "L-BFGS-B": 3, "NLOPT_COBYLA": 4, "LHS": 3, "PYDOE_FULLFACT": 3, "CustomDOE": 3}
 THOROUGH = {"SLSQP": 8, "L-BFGS-B": 5, "NLOPT_COBYLA": 6, "LHS": 5, "PYDOE_FULLFACT": 4, "CustomDOE": 5}
 
 
